@@ -43,8 +43,7 @@ Record lres := L { l_cells : list (list name); l_let : nat; l_ok : bool }.
 Section Lex.
 Variable fresh : name -> nat -> name.
 
-Definition target_cells (n : name) (by_rename : bool) : list (list name) :=
-  if by_rename then [[n]] else [[n]; [n]].
+Definition target_cells (n : name) : list (list name) := [[n]; [n]].
 
 (* [inner]: names bound by lets of the current Python scope (for the defn restriction) *)
 Fixpoint lexf (f : form) (e : env) (inner : list name) (k : nat) {struct f} : lres :=
@@ -58,7 +57,7 @@ Fixpoint lexf (f : form) (e : env) (inner : list name) (k : nat) {struct f} : lr
   | FLit => L [] k true
   | FRef x => L [[resolve e x]] k true
   | FSetv x v => let a := lexf v e inner k in
-                 L (l_cells a ++ target_cells (resolve e x) (fn_as_def v)) (l_let a) (l_ok a)
+                 L (l_cells a ++ target_cells (resolve e x)) (l_let a) (l_ok a)
   | FDo es => lexs es k
   | FLet bs body =>
       (fix lb (bs : list (name * form)) (e : env) (inner : list name) (k : nat) {struct bs} : lres :=
@@ -73,7 +72,7 @@ Fixpoint lexf (f : form) (e : env) (inner : list name) (k : nat) {struct f} : lr
              let a := lexf v e inner k in
              let new := fresh x (l_let a) in
              let b := lb r ((x, new) :: e) (x :: inner) (S (l_let a)) in
-             L (l_cells a ++ target_cells new (fn_as_def v) ++ l_cells b) (l_let b) (l_ok a && l_ok b)
+             L (l_cells a ++ target_cells new ++ l_cells b) (l_let b) (l_ok a && l_ok b)
          end) bs e inner k
   | FFn ps body =>
       let own := ps ++ flat_map (assigned []) body in
